@@ -17,24 +17,28 @@ def one(diff):
         r = subprocess.run(["go", "build", "./..."], cwd=root, env=ENV, capture_output=True, text=True)
         if r.returncode != 0:
             return diff, "does-not-build", r.stderr[-300:]
-        r = subprocess.run(["go", "test", "-vet=off", "-count=1", "-timeout", "300s", "./..."], cwd=root, env=ENV, capture_output=True, text=True)
+        r = subprocess.run(["go", "test", "-vet=off", "-count=1", "-timeout", "300s", "./..."], cwd=root, env=ENV, capture_output=True, text=True) if not os.environ.get("SKIP_SUITE") else subprocess.run(["true"])
         if r.returncode != 0:
             return diff, "suite-fails", "\n".join(l for l in r.stdout.splitlines() if "FAIL" in l)[:300]
         vdir = os.path.join(tmp, "verif"); os.makedirs(os.path.join(vdir, "evidence"))
         shutil.copy(os.path.join(VERIF, "known_findings.json"), vdir)
         alarms = []
-        for p in PROPS:
-            r = subprocess.run([os.path.join(VERIF, "bin", "yverif"), "check", p, "quick", "-repo", root, "-verif", vdir], env=ENV, capture_output=True, text=True)
-            if r.returncode != 0:
-                alarms.append(p + ": " + " || ".join(l.strip()[:260] for l in r.stdout.splitlines() if l.strip().startswith(("VIOLATED", "UNDECIDED", "ERROR")))[:900])
+        r = subprocess.run([os.path.join(VERIF, "bin", "yverif"), "checkall", "-repo", root, "-verif", vdir], env=ENV, capture_output=True, text=True)
+        if r.returncode != 0:
+            cur = ""
+            for l in r.stdout.splitlines():
+                if l.startswith("property="):
+                    cur = l.split()[0][9:]
+                elif l.strip().startswith(("VIOLATED", "UNDECIDED", "ERROR")):
+                    alarms.append(cur + ": " + l.strip()[:int(os.environ.get("WIDTH", "300"))])
         return diff, ("ALARM" if alarms else "silent"), "\n    ".join(alarms)
     finally:
         shutil.rmtree(tmp, ignore_errors=True)
 
-diffs = sorted(glob.glob(os.path.join(sys.argv[1], "*.out", "refactor*.diff")))
+diffs = sorted(glob.glob(os.path.join(sys.argv[1], "*.out", "refactor*.diff")) + glob.glob(os.path.join(sys.argv[1], "*refactor*.diff")))
 only = sys.argv[2] if len(sys.argv) > 2 else ""
 diffs = [d for d in diffs if only in d]
-with cf.ThreadPoolExecutor(max_workers=5) as ex:
+with cf.ThreadPoolExecutor(max_workers=int(os.environ.get('JOBS', '5'))) as ex:
     for d, st, detail in ex.map(one, diffs):
         print("%-14s %s" % (st, d.replace(sys.argv[1], "")))
         if st != "silent":
